@@ -144,4 +144,60 @@ theorem step_logicAnd (fuel : Nat) (g : G) (f : Frame)
   have hh : (addOps g f.ctx 1).heap = g.heap := rfl
   simp only [exec, Frame.pop2, Frame.pop, e0, e1, e2, Bool.false_eq_true, if_false, Frame.push, e3, if_true, e4, hh]
 
+theorem ctxAttrs_addOps (g : G) (c : Nat) (n : Int) (c' : Nat) : ctxAttrs (addOps g c n) c' = ctxAttrs g c' := by
+  simp only [ctxAttrs, addOps]
+  by_cases h : c' < g.ctxs.size
+  · by_cases e : c = c'
+    · subst e; simp [h, Array.getElem_modify]
+    · simp [Array.getElem!_eq_getD, Array.getD_eq_getD_getElem?, Array.getElem?_modify, e]
+  · simp [Array.getElem!_eq_getD, Array.getD_eq_getD_getElem?, Array.getElem?_modify, h]
+
+/-- a name bound to a plain value in the context's own table: the load hands out that value and changes nothing -/
+theorem loadName_plain (sub : SubRun) (g : G) (c : Nat) (name : String) (v : Val)
+    (hv : dictGet (g.heap.dictOf (ctxAttrs g c)) name = some v) (hp : isPlain v = true) :
+    loadName sub g c name false = (g, .ok (v, { ret := some v })) := by
+  unfold loadName
+  simp only [loadName.walk]
+  have : attrsLoad g (g.ctxs[c]!).attrs name = some v := hv
+  simp only [this, Option.getD_some]
+  cases v <;> simp_all [isPlain]
+
+/-- `mark.detail b,e; ld.d name` for a name bound to a plain value: two dispatches, the value is pushed; the frame's annotation
+    list changes (nothing in the fragment reads it) -/
+theorem step_var (fuel : Nat) (g : G) (f : Frame) (name : String) (b e : Int) (v : Val)
+    (hpc : f.pc + 1 < f.code.size) (hi0 : f.code[f.pc]! = .markDetail b e) (hi1 : f.code[f.pc + 1]! = .ldD name)
+    (hl : g.cfg.opLimit = 0) (ht : f.top < stackSize) (hs : f.stack.size = stackSize)
+    (hv : dictGet (g.heap.dictOf (ctxAttrs g f.ctx)) name = some v) (hp : isPlain v = true) :
+    evalLoop (fuel + 2) g f =
+      evalLoop fuel (addOps (addOps g f.ctx 1) f.ctx 1)
+        { f with pc := f.pc + 2, stack := f.stack.set! f.top v, top := f.top + 1,
+                 details := f.details ++ [{ b := b, e := e, tag := "load", text := "", ret := some v }] } := by
+  have h0 : f.pc < f.code.size := by omega
+  rw [show fuel + 2 = (fuel + 1) + 1 from rfl, evalLoop_dispatch (fuel + 1) g f h0 hl ht, hi0]
+  simp only [exec]
+  let f1 : Frame := { f with details := f.details ++ [{ b := b, e := e }], pc := f.pc + 1 }
+  have hl1 : (addOps g f.ctx 1).cfg.opLimit = 0 := hl
+  show evalLoop (fuel + 1) (addOps g f.ctx 1) f1 = _
+  rw [evalLoop_dispatch fuel (addOps g f.ctx 1) f1 hpc hl1 ht]
+  have hi1' : f1.code[f1.pc]! = .ldD name := hi1
+  rw [hi1']
+  have hv1 : dictGet ((addOps g f.ctx 1).heap.dictOf (ctxAttrs (addOps g f.ctx 1) f1.ctx)) name = some v := by
+    rw [ctxAttrs_addOps]; exact hv
+  have hload := loadName_plain (fun g' fr => evalLoop fuel g' fr) (addOps (addOps g f.ctx 1) f.ctx 1) f.ctx name v
+    (by rw [ctxAttrs_addOps]; exact hv1) hp
+  have hupd : updLast f1.details (fun sp => { sp with tag := "load", text := "" }) =
+      some (f.details ++ [{ b := b, e := e, tag := "load", text := "" }]) := by
+    simp [f1, updLast]
+  have htop : f.top < f.stack.size := by omega
+  simp only [exec, hupd, hload, Frame.push, htop, if_true, f1]
+  simp [updLast]
+
+theorem step_store (fuel : Nat) (g : G) (f : Frame) (name : String)
+    (hpc : f.pc < f.code.size) (hi : f.code[f.pc]! = .store name) (hl : g.cfg.opLimit = 0) (ht : f.top < stackSize) (h1 : 1 ≤ f.top) :
+    evalLoop (fuel + 1) g f =
+      evalLoop fuel (storeName (addOps g f.ctx 1) f.ctx name (f.stack[f.top - 1]!)) { f with pc := f.pc + 1 } := by
+  rw [evalLoop_dispatch fuel g f hpc hl ht, hi]
+  have e0 : (f.top == 0) = false := by simp; omega
+  simp only [exec, e0, Bool.false_eq_true, if_false]
+
 end DS.Frag
